@@ -961,6 +961,11 @@ def evaluate(t, env, memo=None):
             r = chr(evaluate(t.args[0], env, memo))
         elif op == "ord":
             r = ord(evaluate(t.args[0], env, memo))
+        elif op == "int_from_bytes":
+            b = evaluate(t.args[0], env, memo)
+            r = int.from_bytes(bytes(b), evaluate(t.args[1], env, memo), signed=bool(evaluate(t.args[2], env, memo)))
+        elif op == "m:hex" and len(t.args) == 1:
+            r = bytes(evaluate(t.args[0], env, memo)).hex()
         elif op in ("m:lower", "m:upper", "m:strip", "m:rstrip", "m:lstrip", "m:startswith", "m:endswith"):
             vals = [evaluate(a, env, memo) for a in t.args]
             r = getattr(vals[0], op[2:])(*vals[1:])
